@@ -346,7 +346,8 @@ def renamed_only(diff, renames):
         names.update((old.lower(), new.lower()))
     for l in diff:
         low = l[1:].lower()
-        yield any(re.search(r"\b%s\b" % re.escape(n), low) for n in names)
+        # substring test: a kind suffix such as 1.0_wp has no word boundary
+        yield any(n in low for n in names)
 
 
 def batch(arg):
